@@ -598,6 +598,8 @@ class Desugar(ast.NodeTransformer):
                     break
             if elts is not None:
                 node.args[0] = ast.copy_location(ast.Tuple(elts=elts, ctx=ast.Load()), node.args[0])
+                if fn in ("tuple", "list") and len(node.args) == 1 and not node.keywords:
+                    return ast.copy_location(ast.Tuple(elts=elts, ctx=ast.Load()) if fn == "tuple" else ast.List(elts=elts, ctx=ast.Load()), node)
         if fn == "sum" and 1 <= len(node.args) <= 2 and not node.keywords and isinstance(node.args[0], ast.Tuple) and node.args[0].elts:
             acc = node.args[1] if len(node.args) == 2 else None
             for e in node.args[0].elts:
